@@ -19,9 +19,13 @@ PY = "/venv/bin/python"
 
 def setup_repo_path():
     """Import aurel from /repo (default, editable install) or VERIF_REPO."""
+    global EVID, REPLAYS
     repo = os.environ.get("VERIF_REPO")
     if repo:
         sys.path.insert(0, os.path.join(repo, "src"))
+        # runs against a scratch copy never overwrite the evidence of /repo
+        EVID = os.path.join(WORK, "evidence_scratch")
+        REPLAYS = os.path.join(WORK, "replays_scratch")
     os.environ.setdefault("AUREL_VERIF", "1")
 
 
